@@ -376,6 +376,19 @@ func c01Shortcuts() []c01Pair {
 	for _, p := range pairs {
 		ps = append(ps, c01Pair{Family: "shortcut", Key: "shortcut", A: p[0], B: p[1], Input: in})
 	}
+	// break / continue targets of every loop kind against the explicit spelling
+	for _, p := range [][2]string{
+		{`{ for (i = 0; i < 5; i++) { if (i == 2) continue; print i }; print i }`, `{ i = 0; while (i < 5) { if (i == 2) { i++; continue }; print i; i++ }; print i }`},
+		{`{ for (i = 0; i < 5; i++) { if (i == 2) continue; if (i == 4) break; print i }; print i }`, `{ i = 0; while (1) { if (!(i < 5)) break; if (i == 2) { i++; continue }; if (i == 4) break; print i; i++ }; print i }`},
+		{`{ i = 0; do { i++; if (i == 2) continue; print i } while (i < 5); print i }`, `{ i = 0; while (1) { i++; if (i == 2) { if (!(i < 5)) break; continue }; print i; if (!(i < 5)) break }; print i }`},
+		{`{ i = 0; while (i < 5) { i++; if (i == 2) continue; print i }; print i }`, `{ for (i = 0; i < 5; ) { i++; if (i == 2) continue; print i }; print i }`},
+		{`{ for (i = 0; i < 3; i++) { for (j = 0; j < 3; j++) { if (j == 1) continue; if (i == 1) break; print i, j }; print "o", i, j } }`,
+			`{ i = 0; while (i < 3) { j = 0; while (j < 3) { if (j == 1) { j++; continue }; if (i == 1) break; print i, j; j++ }; print "o", i, j; i++ } }`},
+		{`{ for (;;) { if (++n > 3) break; if (n == 2) continue; print n }; print n }`, `{ while (1) { if (++n > 3) break; if (n == 2) continue; print n }; print n }`},
+		{`{ for (i = 0; i < 4; i++) if (i % 2) continue; else print i }`, `{ for (i = 0; i < 4; i++) { if (!(i % 2)) print i } }`},
+	} {
+		ps = append(ps, c01Pair{Family: "shortcut", Key: "loop-targets", A: p[0], B: p[1], Input: "a\n"})
+	}
 	// G18-1 (fixed): an action body that compiles to no instruction is still an action (it gets a Nop)
 	for _, p := range [][2]string{
 		{`/a/ { }`, `/a/ { { } }`}, {`/a/ { }`, `/a/ { { { } } { } }`}, {`/a/ { print }`, `/a/`}, {`{ } END { print NR }`, `{ { } } END { print NR }`},
